@@ -380,8 +380,14 @@ func InnerText(node *html.Node) string {
 				return
 			}
 
-			// Scripts and styles have no visible text, whatever their inline style says.
-			if n.Data == "script" || n.Data == "style" || !IsProbablyVisible(n) {
+			// Scripts and styles have no visible text, whatever their inline style says,
+			// and the content of embedded media is only a fallback that is never rendered.
+			switch n.Data {
+			case "script", "style", "iframe", "object", "video", "audio", "canvas", "embed", "applet":
+				return
+			}
+
+			if !IsProbablyVisible(n) {
 				return
 			}
 		}
